@@ -68,6 +68,9 @@ def gen_runs(ctx, label, n, small=True):
             ns = G.legal(rng, mp, lo=10, hi=14)
             if i % 40 == 37 and mp != 'sm':
                 ns.update(n1=rng.randint(101, 120), numinst=1)
+        if i % 20 == 13:
+            # many files in one run (file naming / per-file state): 10..12 instances, thorough tier also more than 100
+            ns['numinst'] = [11, 10, 12][(i // 20) % 3] if (n < 200 or i % 100 != 13) else 101
         if i % 5 == 4 and mp in ('hr', 'spa', 'ha'):
             # sparse lists: few first-side agents with one-entry lists over many second-side agents, quota sums that
             # give every second-side agent a positive lower quota (some of them are ranked by nobody)
